@@ -395,6 +395,11 @@ func (ex *Executor) resolveType(text string, env *SpecEnv) (types.Type, error) {
 		}
 		obj := p.Scope().Lookup(text[i+1:])
 		if obj == nil {
+			if nn, ok := typeRenames[p.Path()+"."+text[i+1:]]; ok {
+				obj = p.Scope().Lookup(nn)
+			}
+		}
+		if obj == nil {
 			return nil, fmt.Errorf("unknown type %s", text)
 		}
 		return obj.Type(), nil
@@ -405,6 +410,11 @@ func (ex *Executor) resolveType(text string, env *SpecEnv) (types.Type, error) {
 	if pkg := env.pkg(); pkg != nil {
 		if obj := pkg.Scope().Lookup(text); obj != nil {
 			return obj.Type(), nil
+		}
+		if nn, ok := typeRenames[pkg.Path()+"."+text]; ok {
+			if obj := pkg.Scope().Lookup(nn); obj != nil {
+				return obj.Type(), nil
+			}
 		}
 	}
 	return nil, fmt.Errorf("unknown type %q", text)
@@ -600,6 +610,13 @@ func findField(s *types.Struct, name string) (int, []int) {
 	for i := 0; i < s.NumFields(); i++ {
 		if s.Field(i).Name() == name {
 			return i, nil
+		}
+	}
+	if nn := renamedField(s, name); nn != "" {
+		for i := 0; i < s.NumFields(); i++ {
+			if s.Field(i).Name() == nn {
+				return i, nil
+			}
 		}
 	}
 	for i := 0; i < s.NumFields(); i++ {
